@@ -6,10 +6,13 @@
 (*   MC_Cli_deviant  with the deviation ValidateDeviant (validate before commit 01748b8) enabled: the only *)
 (*                   untruthful runs are validate runs that printed a failure and exited 0                 *)
 (*   MC_Cli_refuted  the same model against LastTruthful: TLC must find the violation                      *)
+(*   MC_Cli_refuted2 / 3  the deviations ExtractKeepsStale / ExtractSkipsSameLen (a stale file / a stale file *)
+(*                   of the member's length survives a successful extract): ExtractComplete must be refuted  *)
 EXTENDS Cli
 ASSUME MatrixTotal
 ASSUME MatrixNotVacuous
 ASSUME EveryFamilyHasAProducer
+ASSUME RegionDamageBinds
 ASSUME PrintT(<<"MATRIX", Cardinality(AllCmds), "sub-commands", Cardinality(Inputs), "input classes",
                 Cardinality({<<fc, inp, lib>> \in AllCmds \X Inputs \X {"ok", "err"} :
                     FailureClass([Run0(fc[1], fc[2], inp) EXCEPT !.lib = lib])}), "must-fail cells">>)
